@@ -11,7 +11,8 @@ TEXT = ('Resources are never destroyed on the audio thread (Engine A: no dealloc
         'predicate of the matching storage reads it; keys inside the public ids flow only into generation-checked arena '
         'APIs; handles are not Clone (thorough: compile-fail witnesses) and creation paths cannot panic (thorough: effect '
         'analysis from creation roots). Exact accounting over long histories and the two-thread handshake are not decided.'
-        ' A sound that play() reports as created was inserted.')
+        ' A sound that play() reports as created was inserted.'
+        ' Each storage is created with the capacity of its own kind.')
 TECHNIQUE = 'MIR effect analysis (free) + move-flow / must-pass / error-discipline / drop-pairing rules'
 
 RS = 'backend::resources::ResourceStorage::<T>'
@@ -41,11 +42,37 @@ def run(ctx, R, tier):
     keys(F, R)
     reserve(F, R)
     play_inserts(F, R)
+    capacities(F, R)
     if tier == 'thorough':
         from ..witness import run_witnesses
         run_witnesses(R, 'C08')
         from ..creation import run_creation
         run_creation(ctx, R)
+
+
+def capacities(F, R):
+    """Exact accounting per kind: in the track builders the `sounds` storage (and its controller) is created with
+    `sound_capacity` and the `sub_tracks` storage with `sub_track_capacity`."""
+    n = 0
+    for b in F.bodies:
+        if b.krate != 'kira' or '{closure' in b.path or not b.path.startswith('track::') or 'uilder' not in b.path or not b.path.endswith('::build'):
+            continue
+        news = [(bb, describe(b, t['args'][0], depth=4, at=bb)) for bb, t in b.calls() if (callee_path(t) or '') == RS + '::new']
+        if not news:
+            continue
+        # which field of the built track does each storage end up in?
+        for bb, si, s in b.stmts():
+            if s['k'] == 'assign' and s['rv']['k'] == 'agg' and s['rv'].get('ak') == 'adt' and 'sounds' in (s['rv'].get('fields') or []):
+                for fld, cap in (('sounds', 'sound_capacity'), ('sub_tracks', 'sub_track_capacity')):
+                    if fld not in s['rv']['fields']:
+                        continue
+                    n += 1
+                    d = describe(b, s['rv']['ops'][s['rv']['fields'].index(fld)], depth=8, at=bb)
+                    R.check(RS + '::new(' in d and cap in d and not any(c2 in d for c2 in ('sound_capacity', 'sub_track_capacity') if c2 != cap),
+                            'B.C08.capacity', '%s.%s' % (b.path.split('::')[-2], fld),
+                            '%s creates the %s storage as %s, not with %s: the limit of one kind would apply to another' % (b.path, fld, d[:90], cap),
+                            detail={'storage': fld, 'capacity': cap}, where=b.where(bb))
+    R.floor('B.C08.capacity', n, 4)
 
 
 def play_inserts(F, R):
